@@ -44,6 +44,7 @@ const K_F8: &str = "C02:reopen-first-delete-published-by-merge";
 /// one; `skip_to(first opstamp of the segment)` has then already passed the deletes of the batch
 const K_F10: &str = "C02:producer-race-skip-to-passes-own-delete";
 const K_F9: &str = "C02:stale-updater-task-overwrites-meta-after-rollback";
+const K_F11: &str = "C02:reused-opstamp-advance-deletes-early-return";
 
 fn mix(mut z: u64) -> u64 {
     z = z.wrapping_add(0x9E37_79B9_7F4A_7C15);
@@ -1223,6 +1224,17 @@ self.storage_error("C02:searcher-unreadable", format!("after {how}: {e}"), out);
             if pubs.as_ref() != Some(&stored) {
                 out.push(Finding { kind: "model", key: "C02:impl-model-published-mismatch".into(), what: format!("after {how}: implementation publishes {}, model {}", short(&stored), resp.chars().take(300).collect::<String>()) });
             } else {
+                // the same events on the Lean machine with the bookkeeping of advance_deletes
+                // (delete_opstamp early return; C02_bookkeeping_refines says when it cannot differ)
+                ctx.report.count("impl-model:bookkeeping-compared");
+                // how many of these histories the bookkeeping theorem covers (its extra hypothesis:
+                // delete_all_documents only on a writer object that has not committed yet)
+                let book = ask(ctx, &format!("C02 book {}", render(&self.toks, &self.all_ids, false)));
+                ctx.report.count(&format!("impl-model:bookkeeping-hypothesis:{}", if book == "ok" { "holds" } else if book == "dirty" { "fails" } else { "bad-answer" }));
+                let pubd = field(&resp, "pubD").and_then(|s| crate::model::parse_nat_list(&s));
+                if pubd.as_ref() != Some(&stored) {
+                    out.push(Finding { kind: "model", key: "C02:bookkeeping-model-published-mismatch".into(), what: format!("after {how}: implementation publishes {}, the Lean machine with the advance_deletes bookkeeping {:?} (the core machine agrees with the implementation)", short(&stored), field(&resp, "pubD")) });
+                }
                 let rets = field(&resp, "ret").and_then(|s| crate::model::parse_nat_list(&s)).unwrap_or_default();
                 let obs: Vec<Option<u64>> = self.toks.iter().map(|(_, o)| *o).collect();
                 for (k, o) in obs.iter().enumerate() {
@@ -1871,10 +1883,39 @@ fn forced_schedule(ctx: &mut Ctx, pair_idx: usize, schedule: u64, cut: u32) {
             ctx.report.violation("oracle", "C02:opstamp-not-increasing", format!("forced schedule {sname}: the call that stamped first returned {a}, the other {b}"), case.clone());
         }
     }
-    // admissible outcomes: the sequential replay of the two calls in call order, and - when the
-    // calls overlap - in the other order (Lean specification)
     let all_ids: Vec<u64> = vec![1, 2, 3, 10, 11, 12, 60, 61];
     let prior = vec![(Tok::Add(1), None), (Tok::Add(2), None), (Tok::Commit(None), None), (Tok::Add(3), None)];
+    // correspondence with the Lean state machine: its sub-step events `stamp` / `publish`, run in
+    // the same schedule with one worker, predict what the real writer publishes and returns
+    // (F10 included: the model has the defect too, C02_substeps_counterexample)
+    {
+        let mut toks = vec![(forced_tok(&op1), None), (forced_tok(&op2), None)];
+        toks.extend(prior.iter().cloned());
+        let resp = ask(ctx, &format!("C02 substeps {cut} {schedule} {}", render(&toks, &all_ids, false)));
+        // (the worker thread is not under the harness's control: `pub` = it took each batch as
+        // soon as it was sent, `lazy` = only when the commit waited for it; the absolute opstamps
+        // are not compared: `consider_merge_options` draws stamps whenever a segment is registered)
+        let eager = field(&resp, "pub").and_then(|s| crate::model::parse_nat_list(&s));
+        let lazy = field(&resp, "lazy").and_then(|s| crate::model::parse_nat_list(&s));
+        match (eager, lazy) {
+            (Some(eager), Some(lazy)) => {
+                ctx.report.count("forced-schedule:model-compared");
+                if eager != lazy {
+                    ctx.report.count("forced-schedule:model-worker-timing-matters");
+                }
+                if real == eager {
+                    ctx.report.count("forced-schedule:model-agrees:eager-worker");
+                } else if real == lazy {
+                    ctx.report.count("forced-schedule:model-agrees:lazy-worker");
+                } else {
+                    ctx.report.violation("model", "C02:forced-schedule-model-mismatch", format!("forced schedule {sname} (cut {cut}) of {:?} | {:?}: the real writer published {:?}, the Lean state machine with the same sub-step schedule {:?} (eager worker) / {:?} (lazy worker)", op1, op2, real, eager, lazy), case.clone());
+                }
+            }
+            _ => ctx.report.violation("model", "C02:model-bad-answer", format!("substeps: {resp}"), case.clone()),
+        }
+    }
+    // admissible outcomes: the sequential replay of the two calls in call order, and - when the
+    // calls overlap - in the other order (Lean specification)
     let mut admissible: Vec<Vec<u64>> = vec![];
     let orders: Vec<[&HOp; 2]> = if schedule == 0 { vec![[&op1, &op2]] } else { vec![[&op1, &op2], [&op2, &op1]] };
     for o in orders {
@@ -1912,6 +1953,144 @@ fn forced_schedule(ctx: &mut Ctx, pair_idx: usize, schedule: u64, cut: u32) {
         ctx.report.violation("oracle", K_F10, format!("forced schedule {sname} (segment cut every {cut} docs): call 1 = {:?} drew its stamps and queued its delete, call 2 = {:?} stamped later and was sent first, then call 1 was sent: documents {:?}, which call 1 itself deletes, are published: {:?}; admissible {:?}", op1, op2, own_deleted, real, admissible), case);
     } else {
         ctx.report.violation("oracle", "C02:forced-schedule-not-linearizable", format!("forced schedule {sname} (cut {cut}) of {:?} | {:?}: published {:?}, admissible {:?}", op1, op2, real, admissible), case);
+    }
+}
+
+/// The early return of `advance_deletes` after a reverted stamper
+/// (Lean: `C02_stale_catchup_lost_delete_counterexample`).  `delete_all_documents` reverts the
+/// stamper to the stale `committed_opstamp`, below the opstamp T of meta.json; while a merge of
+/// two new uncommitted segments is running, deletes are pushed: `end_merge` finds one older than
+/// T, catches the merged segment up "to the last commit" and records `delete_opstamp = T`; filler
+/// operations bring the reused opstamps back to T - `slack`, a last delete of a document of the
+/// merged segment follows, and the commit gets exactly T: `advance_deletes` says "already
+/// up-to-date" and the delete is not applied.
+fn stale_catchup(ctx: &mut Ctx, slack: u64) {
+    struct Out {
+        t: u64,
+        c0: u64,
+        rd: u64,
+        rc: u64,
+        victim: u64,
+        sacrificed: Vec<u64>,
+        published: Vec<u64>,
+        expected: Vec<u64>,
+    }
+    let res = catch_unwind(AssertUnwindSafe(|| -> Option<Out> {
+        let mut sb = Schema::builder();
+        let id = sb.add_u64_field("id", FAST | INDEXED | STORED);
+        let body = sb.add_text_field("body", TEXT);
+        let index = Index::create(RamDirectory::create(), sb.build(), Default::default()).ok()?;
+        tantivy::verif::set_segment_cut_docs(0);
+        let mut w: IndexWriter = index.writer_with_num_threads(1, 200_000_000).ok()?;
+        w.set_merge_policy(Box::new(NoMergePolicy));
+        let tiny = |i: u64| {
+            let mut d = TantivyDocument::default();
+            d.add_u64(id, i);
+            d
+        };
+        let fat = |i: u64| {
+            let mut d = TantivyDocument::default();
+            d.add_u64(id, i);
+            let mut s = String::new();
+            for k in 0..500 {
+                s.push_str(&format!("u{i}x{k} "));
+            }
+            d.add_text(body, s);
+            d
+        };
+        for i in 0..2500u64 {
+            w.add_document(tiny(100_000 + i)).ok()?;
+        }
+        let t = w.commit().ok()?;
+        let c0 = w.delete_all_documents().ok()?;
+        let mut p = LogMergePolicy::default();
+        p.set_min_num_segments(2);
+        w.set_merge_policy(Box::new(p));
+        let per: u64 = 250;
+        tantivy::verif::set_segment_cut_docs(per as u32);
+        for i in 0..2 * per {
+            w.add_document(fat(i)).ok()?;
+        }
+        // deletes spread over the time the worker indexes and the merge runs
+        let mut sacrificed = vec![];
+        for k in 0..200u64 {
+            w.delete_term(Term::from_field_u64(id, k));
+            sacrificed.push(k);
+            std::thread::sleep(std::time::Duration::from_millis(4));
+        }
+        std::thread::sleep(std::time::Duration::from_millis(300));
+        w.set_merge_policy(Box::new(NoMergePolicy));
+        tantivy::verif::set_segment_cut_docs(0);
+        let mut filler = vec![];
+        let mut n = 0u64;
+        loop {
+            let r = w.add_document(tiny(200_000 + n)).ok()?;
+            filler.push(200_000 + n);
+            n += 1;
+            if r + slack + 1 >= t || n > 100_000 {
+                break;
+            }
+        }
+        let victim = per - 1;
+        let rd = w.delete_term(Term::from_field_u64(id, victim));
+        let rc = w.commit().ok()?;
+        let reader: tantivy::IndexReader = index.reader_builder().reload_policy(ReloadPolicy::Manual).try_into().ok()?;
+        reader.reload().ok()?;
+        let searcher = reader.searcher();
+        let mut published = vec![];
+        for sr in searcher.segment_readers() {
+            let col = sr.fast_fields().u64("id").ok()?;
+            for doc in sr.doc_ids_alive() {
+                published.push(col.first(doc)?);
+            }
+        }
+        published.sort();
+        let mut expected: Vec<u64> = (0..2 * per).filter(|i| !sacrificed.contains(i) && *i != victim).collect();
+        expected.extend(filler);
+        expected.sort();
+        // no merge thread outlives the scenario
+        let _ = w.wait_merging_threads();
+        Some(Out { t, c0, rd, rc, victim, sacrificed, published, expected })
+    }));
+    tantivy::verif::set_segment_cut_docs(0);
+    let case = json!({"kind": "stale-catchup", "slack": slack});
+    ctx.report.case(&format!("stale-catchup|{slack}"), true);
+    let o = match res {
+        Ok(Some(o)) => o,
+        Ok(None) => {
+            ctx.report.count("stale-catchup:setup-failed");
+            return;
+        }
+        Err(_) => {
+            ctx.report.violation("oracle", "C02:panic", "panic in the stale catch-up scenario".into(), case);
+            return;
+        }
+    };
+    if std::env::var("C02_STALE").is_ok() {
+        eprintln!("stale-catchup slack {slack}: T={} delete_all returned {} last delete {} commit {} extra {:?} missing {:?}", o.t, o.c0, o.rd, o.rc,
+            o.published.iter().filter(|i| !o.expected.contains(i)).collect::<Vec<_>>(), o.expected.iter().filter(|i| !o.published.contains(i)).take(5).collect::<Vec<_>>());
+    }
+    if o.rc != o.t {
+        ctx.report.count("stale-catchup:commit-opstamp-not-reused");
+    } else {
+        ctx.report.count("stale-catchup:commit-opstamp-reused");
+    }
+    if o.published == o.expected {
+        ctx.report.count("stale-catchup:sequential");
+        return;
+    }
+    let extra: Vec<u64> = o.published.iter().filter(|i| !o.expected.contains(i)).cloned().collect();
+    let missing = o.expected.iter().any(|i| !o.published.contains(i));
+    // signature: the commit got the opstamp of the earlier commit again, the stamper had been
+    // reverted below it, nothing is missing, and the extra documents are documents of the merged
+    // segment whose deletes were still pending, the last one among them
+    let sig = o.rc == o.t && o.c0 < o.t && o.rd < o.t && !missing && extra.contains(&o.victim)
+        && extra.iter().all(|i| *i == o.victim || o.sacrificed.contains(i));
+    if sig {
+        ctx.report.count("stale-catchup:reproduced");
+        ctx.report.violation("oracle", K_F11, format!("commit {} (meta.json), delete_all_documents reverted the stamper to {}; two uncommitted segments were merged while deletes were pushed (end_merge caught the merged segment up to {} and recorded it as its delete_opstamp); the reused opstamps reached {} again: delete_term(id {}) returned {}, the commit {} - advance_deletes returned early, documents {:?} whose deletes are older than the commit are published", o.t, o.c0, o.t, o.t, o.victim, o.rd, o.rc, extra), case);
+    } else {
+        ctx.report.violation("oracle", "C02:stale-catchup-not-sequential", format!("T={} delete_all returned {} last delete {} commit {}: extra {:?}, missing some: {}", o.t, o.c0, o.rd, o.rc, extra, missing), case);
     }
 }
 
@@ -2150,6 +2329,10 @@ pub fn run(ctx: &mut Ctx) {
             forced_schedule(ctx, case["pair"].as_u64().unwrap_or(0) as usize, case["schedule"].as_u64().unwrap_or(2), case["cut"].as_u64().unwrap_or(0) as u32);
             return;
         }
+        if case["kind"] == "stale-catchup" {
+            stale_catchup(ctx, case["slack"].as_u64().unwrap_or(2));
+            return;
+        }
         if case["kind"] == "producer-race" {
             producer_race(ctx, case["rounds"].as_u64().unwrap_or(400));
             return;
@@ -2173,6 +2356,14 @@ pub fn run(ctx: &mut Ctx) {
     // rollback() while a task of the old segment updater is running (F9), gated deterministically
     for _ in 0..ctx.budget(2, 10) {
         lifecycle_race(ctx);
+    }
+    // the early return of advance_deletes when reused opstamps meet a recorded delete_opstamp
+    // (the commit draws its stamp after the registration of the last segment drew one: slack 2)
+    stale_catchup(ctx, 2);
+    if ctx.thorough() {
+        for slack in 1..4 {
+            stale_catchup(ctx, slack);
+        }
     }
     // forced producer schedules: every pair of calls, every order of {stamp, publish} x 2
     for pair in 0..forced_pairs().len() {
